@@ -58,9 +58,11 @@ func (x *Exec) special(st *State, in ssa.Instruction, key string, f *ssa.Functio
 	case "(*sync.Mutex).Lock", "(*sync.RWMutex).Lock", "(*sync.RWMutex).RLock":
 		p, _ := args[0].(*Ptr)
 		x.lockOp(st, in, p, true)
+		x.lockProtocol(st, in, true)
 		return nil, true
 	case "(*sync.Mutex).Unlock", "(*sync.RWMutex).Unlock", "(*sync.RWMutex).RUnlock":
 		p, _ := args[0].(*Ptr)
+		x.lockProtocol(st, in, false)
 		x.lockOp(st, in, p, false)
 		return nil, true
 	case "(*sync.WaitGroup).Add", "(*sync.WaitGroup).Done", "(*sync.WaitGroup).Wait":
